@@ -102,6 +102,79 @@ func directedSessions(r *monitor.Run) {
 		r.Nontrivial("directed|expired_unswept")
 		r.Count("directed_session_scenarios", 1)
 	}()
+	// ---- a session that still holds messages ends: its queue is gone, so is its share of the global gauges
+	for _, how := range []string{"terminate", "clean_reconnect", "expiry_sweep"} {
+		func() {
+			b, err := broker.Start(broker.Options{})
+			if err != nil {
+				r.Inconclusive(err.Error())
+				return
+			}
+			defer b.Stop(step)
+			expiry := uint32(3600)
+			if how == "expiry_sweep" {
+				expiry = 1
+			}
+			c, _, err := connect(b, "holder", true, expiry)
+			if err != nil {
+				r.Inconclusive(err.Error())
+				return
+			}
+			c.SetAutoAck(false)
+			if _, err := c.Subscribe([]mqttx.Sub{{Filter: "held/#", QoS: 1}}, 0, step); err != nil {
+				r.Inconclusive(err.Error())
+				return
+			}
+			// one message in flight (delivered, never acknowledged), three more queued while the client is away
+			b.Publish("held/x", "in-flight", 1, false)
+			if err := c.WaitPayload("in-flight", step); err != nil {
+				r.Inconclusive(err.Error())
+				return
+			}
+			from := b.Log.Len()
+			c.Close()
+			if _, ok := b.Log.Wait(from, func(e broker.Event) bool { return e.Kind == "OnClosed" && e.Client == "holder" }, step); !ok {
+				r.Inconclusive("close not observed")
+				return
+			}
+			for i := 0; i < 3; i++ {
+				b.Publish("held/x", fmt.Sprintf("queued-%d", i), 1, false)
+			}
+			r.Eval(1)
+			g := b.Srv.StatsManager().GetGlobalStats().MessageStats
+			if g.QueuedCurrent != 4 || g.InflightCurrent != 1 {
+				r.Violation("directed.queue_gauges:before_session_end", fmt.Sprintf("an offline session holds 4 messages, 1 of them in flight: global QueuedCurrent=%d InflightCurrent=%d", g.QueuedCurrent, g.InflightCurrent), nil)
+				return
+			}
+			from = b.Log.Len()
+			switch how {
+			case "terminate":
+				b.Srv.ClientService().TerminateSession("holder")
+			case "clean_reconnect":
+				c2, _, err := connect(b, "holder", true, 0)
+				if err != nil {
+					r.Inconclusive(err.Error())
+					return
+				}
+				defer c2.Close()
+			case "expiry_sweep":
+				time.Sleep(1700 * time.Millisecond)
+				server.VerifSessionExpireCheck(b.Srv)
+			}
+			if _, ok := b.Log.Wait(from, func(e broker.Event) bool { return e.Kind == "OnSessionTerminated" && e.Client == "holder" }, step); !ok {
+				r.Inconclusive("session end not observed (" + how + ")")
+				return
+			}
+			time.Sleep(30 * time.Millisecond)
+			g = b.Srv.StatsManager().GetGlobalStats().MessageStats
+			if g.QueuedCurrent != 0 || g.InflightCurrent != 0 {
+				r.Violation("directed.queue_gauges_after_session_end:how="+how, fmt.Sprintf("the only session that held messages has ended (%s), no queue exists any more: global QueuedCurrent=%d InflightCurrent=%d", how, g.QueuedCurrent, g.InflightCurrent), nil)
+				return
+			}
+			r.Nontrivial("directed|held|" + how)
+			r.Count("directed_session_scenarios", 1)
+		}()
+	}
 	// ---- store fault at the end of a session
 	if RedisCfgFault == nil {
 		return
